@@ -149,6 +149,8 @@ def run(repo, chk):
     per_instance_state_obligations(repo, chk, "R10.4", [f"transform.{col.cls.name}", "transform.PteraTransformer"])
 
     # ---------------- R10.5
+    from .shared import unwrap_obligations
+    unwrap_obligations(repo, chk, "R10.5", "a function under several decorators, some of them callable objects (lru_cache, class-based decorators), is still reached, so its own names are selectable")
     from .shared import scratch_maker_obligations
     scratch_maker_obligations(repo, chk, "R10.5", "an activation that fails on a closure (a free variable still unbound) leaves nothing behind that would make later, valid selections on plain functions of that module fail")
     from .shared import eval_env_obligations
